@@ -88,6 +88,14 @@ impl IoPlan {
     }
 }
 
+/// Payload of the panic raised by a seam when the code under test keeps
+/// calling it without any possibility of progress (e.g. a hand-written read
+/// loop that retries on `Ok(0)`): a livelock, reported as a violation.
+pub struct NoProgress(pub &'static str);
+
+/// Consecutive calls that can make no progress before the seam gives up.
+pub const NO_PROGRESS_LIMIT: u64 = 10_000;
+
 #[derive(Clone, Debug, Default)]
 pub struct SeamStats {
     pub calls: u64,
@@ -96,6 +104,8 @@ pub struct SeamStats {
     pub zero: u64,
     pub hard_err: u64,
     pub flush_calls: u64,
+    /// consecutive calls that moved no byte
+    pub idle: u64,
 }
 
 struct EvState {
@@ -205,10 +215,18 @@ impl<'a> io::Read for SimSource<'a> {
             }
             Fire::Zero => {
                 self.stats.zero += 1;
+                self.stats.idle += 1;
+                if self.stats.idle > NO_PROGRESS_LIMIT {
+                    std::panic::panic_any(NoProgress("read"));
+                }
                 return Ok(0);
             }
             Fire::Err(k) => {
                 self.stats.hard_err += 1;
+                self.stats.idle += 1;
+                if self.stats.idle > NO_PROGRESS_LIMIT {
+                    std::panic::panic_any(NoProgress("read"));
+                }
                 return Err(io::Error::new(k, "sim: injected read error"));
             }
             Fire::None => {}
@@ -216,8 +234,13 @@ impl<'a> io::Read for SimSource<'a> {
         let avail = self.data.len().saturating_sub(self.pos);
         if avail == 0 {
             self.stats.zero += 1;
+            self.stats.idle += 1;
+            if self.stats.idle > NO_PROGRESS_LIMIT {
+                std::panic::panic_any(NoProgress("read"));
+            }
             return Ok(0);
         }
+        self.stats.idle = 0;
         let mut n = buf.len().min(avail);
         if !self.chunks.is_empty() {
             let c = self.chunks[(self.stats.calls as usize - 1) % self.chunks.len()].max(1);
@@ -276,14 +299,23 @@ impl<'a> io::Write for SimSink<'a> {
             }
             Fire::Zero => {
                 self.stats.zero += 1;
+                self.stats.idle += 1;
+                if self.stats.idle > NO_PROGRESS_LIMIT {
+                    std::panic::panic_any(NoProgress("write"));
+                }
                 return Ok(0);
             }
             Fire::Err(k) => {
                 self.stats.hard_err += 1;
+                self.stats.idle += 1;
+                if self.stats.idle > NO_PROGRESS_LIMIT {
+                    std::panic::panic_any(NoProgress("write"));
+                }
                 return Err(io::Error::new(k, "sim: injected write error"));
             }
             Fire::None => {}
         }
+        self.stats.idle = 0;
         let mut n = buf.len();
         if !self.chunks.is_empty() {
             let c = self.chunks[(self.stats.calls as usize - 1) % self.chunks.len()].max(1);
